@@ -206,11 +206,27 @@ Proof. vm_compute. repeat split; reflexivity. Qed.
 Example ex_implicit :
   fst (fstree_from_file_stream (list fnode) (fs_add 493 0 0) default_options (fs_init 493 0 0)
          [102;105;108;101;32;97;47;98;32;48;54;52;52;32;49;32;50;10]) (* file a/b 0644 1 2 *)
-  = [ {| f_path := []; f_mode := 16877; f_uid := 0; f_gid := 0; f_devno := 0; f_extra := None; f_implicit := true |};
-      {| f_path := [[97]]; f_mode := 16877; f_uid := 0; f_gid := 0; f_devno := 0; f_extra := None; f_implicit := true |};
-      {| f_path := [[97];[98]]; f_mode := 33188; f_uid := 1; f_gid := 2; f_devno := 0; f_extra := Some [97;47;98]; f_implicit := false |} ].
+  = [ {| f_path := []; f_mode := 16877; f_uid := 0; f_gid := 0; f_devno := 0; f_extra := None; f_implicit := true; f_hard := false |};
+      {| f_path := [[97]]; f_mode := 16877; f_uid := 0; f_gid := 0; f_devno := 0; f_extra := None; f_implicit := true; f_hard := false |};
+      {| f_path := [[97];[98]]; f_mode := 33188; f_uid := 1; f_gid := 2; f_devno := 0; f_extra := Some [97;47;98]; f_implicit := false; f_hard := false |} ].
 Proof. vm_compute. reflexivity. Qed.
 
 (* the parser rejects what it should: a stray backslash inside quotes *)
 Example ex_reject : snd (parse_log [102;105;108;101;32;34;97;92;32;98;34;32;48;32;48;32;48;10]) = Some EEscape.
 Proof. vm_compute. reflexivity. Qed.
+
+(* the `link` keyword reaches the tree as a hard link entry (repo fix F05): forced mode S_IFLNK|0777,
+   FLAG_LINK_IS_HARD, target canonicalised by mknode *)
+Example ex_link_is_hard :
+  fst (fstree_from_file_stream (list fnode) (fs_add 493 0 0) default_options (fs_init 493 0 0)
+         [108;105;110;107;32;108;32;48;54;52;52;32;55;32;56;32;46;47;97;47;47;98;10]) (* link l 0644 7 8 ./a//b *)
+  = [ {| f_path := []; f_mode := 16877; f_uid := 0; f_gid := 0; f_devno := 0; f_extra := None; f_implicit := true; f_hard := false |};
+      {| f_path := [[108]]; f_mode := 41471; f_uid := 7; f_gid := 8; f_devno := 0; f_extra := Some [97;47;98]; f_implicit := false; f_hard := true |} ].
+Proof. vm_compute. reflexivity. Qed.
+
+(* device numbers must fit 12 bit major / 20 bit minor (repo fix F24): the first value beyond is refused *)
+Example ex_nod_major_range :
+  snd (parse_log [110;111;100;32;110;32;48;54;52;52;32;48;32;48;32;99;32;52;48;57;53;32;49;48;52;56;53;55;53;10]) = None /\
+  snd (parse_log [110;111;100;32;110;32;48;54;52;52;32;48;32;48;32;99;32;52;48;57;54;32;48;10]) = Some EDevNum /\
+  snd (parse_log [110;111;100;32;110;32;48;54;52;52;32;48;32;48;32;98;32;48;32;49;48;52;56;53;55;54;10]) = Some EDevNum.
+Proof. vm_compute. repeat split; reflexivity. Qed.
